@@ -1191,6 +1191,7 @@ int EGLPNUM_TYPENAME_ILLlib_addrow (
 	EGLPNUM_TYPE tval[1];
 	int *tempind = 0;
 	int pind, hit;
+	int name_set = 0;
 
 	EGLPNUM_TYPENAME_EGlpNumInitVar (tval[0]);
 
@@ -1283,6 +1284,7 @@ int EGLPNUM_TYPENAME_ILLlib_addrow (
 	ILL_FAILtrue (qslp->rownames == NULL, "must always be non NULL");
 	EGLPNUM_TYPENAME_ILLlib_findName (qslp, 1 /*row */ , name, nrows, buf);
 	ILL_UTIL_STR (qslp->rownames[nrows], buf);
+	name_set = 1;
 	ILLsymboltab_register (&qslp->rowtab, buf, qslp->nrows, &pind, &hit);
 	ILL_FAILfalse (hit == 0, "must be new");
 
@@ -1360,6 +1362,12 @@ int EGLPNUM_TYPENAME_ILLlib_addrow (
 	}
 
 CLEANUP:
+	if (rval && name_set)
+	{
+		/* the row was not added: the copy of its name in the append slot is not
+		 * yet owned by the problem (nrows was not incremented) */
+		ILL_IFFREE(qslp->rownames[nrows]);
+	}
 	ILL_IFFREE(tempind);
 
 	EGLPNUM_TYPENAME_EGlpNumClearVar (tval[0]);
@@ -2190,6 +2198,7 @@ int EGLPNUM_TYPENAME_ILLlib_addcol (
 	int ncols;
 	char buf[ILL_namebufsize];
 	int pind, hit;
+	int name_set = 0;
 	EGLPNUM_TYPE l, u;
 
 	EGLPNUM_TYPENAME_EGlpNumInitVar (l);
@@ -2278,6 +2287,7 @@ int EGLPNUM_TYPENAME_ILLlib_addcol (
 	ILLsymboltab_register (&qslp->coltab, buf, qslp->nstruct, &pind, &hit);
 	ILL_FAILfalse ((pind == qslp->nstruct) && (hit == 0), "must be new");
 	ILL_UTIL_STR (qslp->colnames[qslp->nstruct], buf);
+	name_set = 1;
 
 
 	/*  Add col to the matrix */
@@ -2401,6 +2411,12 @@ int EGLPNUM_TYPENAME_ILLlib_addcol (
 	}
 
 CLEANUP:
+	if (rval && name_set)
+	{
+		/* the column was not added: the copy of its name in the append slot is
+		 * not yet owned by the problem (nstruct was not incremented) */
+		ILL_IFFREE(qslp->colnames[qslp->nstruct]);
+	}
 	EGLPNUM_TYPENAME_EGlpNumClearVar (l);
 	EGLPNUM_TYPENAME_EGlpNumClearVar (u);
 	EG_RETURN (rval);
